@@ -6,8 +6,10 @@ Open Scope N_scope.
 
 (* one step of a server scenario (layer T) *)
 Inductive sstep :=
-| SConn (peer : ip) (render : list N) (targets : list (list N))  (* one connection whose peer address, as the listener
-                                                                    sees it, is [peer]; keep-alive requests *)
+| SConn (peer : ip) (render : list N) (targets : list (list N)) (over : option (N * list N))
+    (* one connection whose peer address, as the listener sees it, is [peer]; keep-alive requests within the HTTP
+       layer's limits; optionally a last request beyond them: (the status the unchanged HTTP layer refuses it
+       with, its target) *)
 | SBurst (n : N) (peer : ip) (render : list N) (target : list N) (* n concurrent connections, one GET each *)
 | SFault (kind : N) (peer : ip)                                  (* 0 garbage bytes, 1 half-open, 2 reset *)
 | SInc.                                                         (* a metric is updated *)
@@ -58,18 +60,29 @@ Definition bits_for (f : net -> ip -> bool) (n : option net) (peers : list ip) :
 
 Definition no_resp : resp := (0, []).
 
-(* accept a connection from [peer], the given requests arrive on it, then [fin] happens to it *)
-Definition serve_conn (s : state) (peer : ip) (targets : list (list N)) (fin : conn_event) : state * list resp :=
+(* request targets are written with run-length padding:  hx ".." ++ fill c n ++ ..  *)
+Definition fill (c n : N) : list N := repeat c (N.to_nat n).
+
+Definition unwrap (o : option resp) : resp := match o with Some r => r | None => no_resp end.
+
+(* accept a connection from [peer], the given requests arrive on it, then optionally one beyond the HTTP layer's
+   limits, then [fin] happens to it *)
+Definition serve_conn (s : state) (peer : ip) (targets : list (list N)) (over : option N) (fin : conn_event)
+  : state * list resp :=
   let id := st_next s in
   let '(s1, _) := step s (Accept peer) in
   let '(s2, os) := run s1 (map (fun t => Conn id (EvRequest t)) targets) in
-  (fst (step s2 (Conn id fin)), map (fun o => match o with Some r => r | None => no_resp end) os).
+  let '(s3, oo) := match over with
+                   | Some code => let '(s', o) := step s2 (Conn id (EvOversize code)) in (s', [o])
+                   | None => (s2, [])
+                   end in
+  (fst (step s3 (Conn id fin)), map unwrap (os ++ oo)).
 
 Fixpoint burst (s : state) (n : nat) (peer : ip) (target : list N) : state * list resp :=
   match n with
   | O => (s, [])
   | S k =>
-      let '(s1, rs) := serve_conn s peer [target] EvIdle in   (* stays open while the others run *)
+      let '(s1, rs) := serve_conn s peer [target] None EvIdle in   (* stays open while the others run *)
       let '(s2, rs') := burst s1 k peer target in
       (s2, rs ++ rs')
   end.
@@ -79,14 +92,14 @@ Definition fault_event (kind : N) : conn_event :=
 
 Definition run_sstep (s : state) (st : sstep) : state * sout :=
   match st with
-  | SConn peer render targets =>
+  | SConn peer render targets over =>
       let s0 := fst (step s (Update render)) in
-      let '(s1, rs) := serve_conn s0 peer targets EvClose in (s1, OC rs)
+      let '(s1, rs) := serve_conn s0 peer targets (option_map fst over) EvClose in (s1, OC rs)
   | SBurst n peer render target =>
       let s0 := fst (step s (Update render)) in
       let '(s1, rs) := burst s0 (N.to_nat n) peer target in (s1, OB rs)
   | SFault kind peer =>
-      let '(s1, _) := serve_conn s peer [] (fault_event kind) in (s1, OFault)
+      let '(s1, _) := serve_conn s peer [] None (fault_event kind) in (s1, OFault)
   | SInc => (s, OInc)
   end.
 
@@ -113,7 +126,7 @@ Definition run_case : case -> OUT := run_case_gen true.
 (* ---- the property in executable form, evaluated on an observed output *)
 Definition wf_sstep (st : sstep) : bool :=
   match st with
-  | SConn peer _ _ => wf_ip peer
+  | SConn peer _ _ over => wf_ip peer && match over with Some (code, _) => negb (code =? 200) | None => true end
   | SBurst _ peer _ _ => wf_ip peer
   | SFault _ peer => wf_ip peer
   | SInc => true
@@ -137,12 +150,35 @@ Definition wf_case (c : case) : bool :=
       forallb wf_sstep steps
   end.
 
-Definition spec_sout (al : option (list net)) (st : sstep) : sout :=
+(* a refusal that carries no metric data: any status other than 200 (0 = the connection just ended), empty body *)
+Definition refused (r : resp) : bool := negb (fst r =? 200) && match snd r with [] => true | _ => false end.
+
+(* a request beyond the limits the check assumes of the HTTP layer: a refusal without data is accepted as it is;
+   anything else must be the specified answer (so a forbidden peer never gets data, and an HTTP layer with wider
+   limits that serves the request correctly is not reported) *)
+Definition over_expected (al : option (list net)) (peer : ip) (t render : list N) (observed : resp) : resp :=
+  if refused observed then observed else spec_respond al peer t render.
+
+(* the specified output of a step; [o] is the observed output, consulted only for the one slot above *)
+Definition spec_sout (al : option (list net)) (st : sstep) (o : sout) : sout :=
   match st with
-  | SConn peer render targets => OC (map (fun t => spec_respond al peer t render) targets)
+  | SConn peer render targets over =>
+      OC (map (fun t => spec_respond al peer t render) targets ++
+          match over with
+          | Some (_, t) =>
+              [over_expected al peer t render
+                 (match o with OC rs => nth (length targets) rs no_resp | _ => no_resp end)]
+          | None => []
+          end)
   | SBurst n peer render target => OB (repeat (spec_respond al peer target render) (N.to_nat n))
   | SFault _ _ => OFault
   | SInc => OInc
+  end.
+
+Fixpoint spec_souts (al : option (list net)) (steps : list sstep) (l : list sout) : list sout :=
+  match steps with
+  | [] => []
+  | st :: r => spec_sout al st (hd OInc l) :: spec_souts al r (tl l)
   end.
 
 Definition spec_ok (c : case) (o : OUT) : bool :=
@@ -164,7 +200,7 @@ Definition spec_ok (c : case) (o : OUT) : bool :=
       | None => true
       end
   | CServe entries steps, OServe l =>
-      dec2b (list_eq_dec sout_eq_dec) l (map (spec_sout (spec_allowlist_s (map snd entries))) steps)
+      dec2b (list_eq_dec sout_eq_dec) l (spec_souts (spec_allowlist_s (map snd entries)) steps l)
   | _, _ => false
   end.
 
